@@ -189,7 +189,11 @@ def _pool_init(func):
 
 def _pool_call(lines):
     cases = [json.loads(json.loads(l)) for l in lines]
-    return _POOL_FUNC(cases)
+    try:
+        return _POOL_FUNC(cases)
+    except BaseException as e:       # a dying worker would hang the pool: report instead
+        import traceback
+        return ("ERR", traceback.format_exc(), None, None)
 
 
 class Ctx:
@@ -307,6 +311,8 @@ class Ctx:
         total = 0
         with mp.get_context("fork").Pool(procs, initializer=_pool_init, initargs=(func,)) as pool:
             for n, viol, nontriv, samples in pool.imap_unordered(_pool_call, chunks()):
+                if n == "ERR":
+                    raise Machinery("replay worker failed:\n" + viol)
                 total += n
                 for v in viol:
                     self.violation(*v)
